@@ -48,6 +48,7 @@ pub fn plan(property: &str, tier: &str) -> Option<CheckPlan> {
         "C07" => Some(c07(seed, tier, thorough)),
         "C08" => Some(c08(seed, tier, thorough)),
         "C09" => Some(c09(seed, tier, thorough)),
+        "C10" => Some(c10(seed, tier, thorough)),
         "C11" => Some(c11(seed, tier, thorough)),
         _ => None,
     }
@@ -259,5 +260,48 @@ fn c11(seed: u64, tier: &str, thorough: bool) -> CheckPlan {
             "soft_write_fault_transparent".into(), "clock_fault_runs".into(), "rng_fault_runs".into()],
         exhaustive: false,
         extra: json!({"sites": SITES.len(), "carriers": CARRIERS.len()}),
+    }
+}
+
+fn c10(seed: u64, tier: &str, thorough: bool) -> CheckPlan {
+    let mut jobs = vec![];
+    // (a) simulated clock
+    for (name, text) in crate::checks::c10::CLOCK_PROGRAMS {
+        jobs.push(job("C10", "clock", derive(seed, name, 0), tier, json!({"program": text, "label": format!("C10 clock {name}"), "count": if thorough { 400 } else { 40 }})));
+    }
+    for id in corpus_ids(derive(seed, "c10corpus", 0), if thorough { usize::MAX } else { 60 }) {
+        jobs.push(job("C10", "clock", derive(seed, "c10corpus", 1), tier, json!({"script": id, "count": if thorough { 40 } else { 8 }})));
+    }
+    // (b) bounded liveness
+    for (name, _) in crate::checks::c10::FIXED {
+        jobs.push(job("C10", "fixed", seed, tier, json!({"name": name})));
+    }
+    let n = if thorough { 4000 } else { 120 };
+    for i in 0..n {
+        jobs.push(job("C10", "pipelines", derive(seed, "c10pipe", i), tier, json!({"count": 25})));
+    }
+    let mut opts = SupOpts::default();
+    opts.cpu_budget_s = 4.0;
+    opts.mem_limit = 3 << 30;
+    CheckPlan {
+        property: "C10".into(),
+        tier: tier.into(),
+        seed,
+        level: "exploration".into(),
+        jobs,
+        rule: "(a) One evaluation = one host history (instantiate, run, optional advance/reset-timeout, run ...) under a time limit with the simulated clock: time advances by a seeded tick at \
+               allocation events, by d at sleep(d), by seeded jumps at clock reads and by host Advance ops; invariant: no user call begins later than timer start + T, and a deadline that passed \
+               at a call check ends the op in Timeout. (b) One evaluation = one generated pipeline (generator/sequence source, 0-4 adaptors incl. infinite/huge ones, one consumer) or one adversarial \
+               numeric/structural builtin call under finite search/call/size/depth/recursion limits in a supervised child process with a 4 CPU-second budget per scenario (expected: milliseconds). \
+               Distinct = (program, tick mode, number of timeouts, ops) for (a); (pipeline shape, outcome class) for (b).".into(),
+        assumptions: vec![
+            "time may pass at allocation events, sleeps, clock reads and between host ops - not between xray's deadline check and the first frame of the call it admits".into(),
+            "liveness is judged in CPU time of the worker process (not wall time) and confirmed by replaying the scenario alone".into(),
+            "random sources are never permanently constant (rejection loops in sample legitimately need a varying source)".into(),
+        ],
+        opts,
+        required_probes: vec!["timeout_outcomes".into(), "run_after_reset_timeout_succeeded".into(), "sleep_advanced_simulated_time".into(), "clock_jump_runs".into(), "host_advance_runs".into(), "live_runs".into()],
+        exhaustive: false,
+        extra: json!({"cpu_budget_s_per_scenario": 4.0}),
     }
 }
